@@ -6,4 +6,5 @@ import Csproto.Props.C16
 #print axioms Csproto.C16.per_message_names_distinct_iff
 #print axioms Csproto.C16.collision_witness
 #print axioms Csproto.C16.name_plan_fact
+#print axioms Csproto.C16.generator_keeps_no_state_fact
 #print axioms Csproto.C16.routing_total
